@@ -19,12 +19,22 @@ class C07(Suite):
                    "nested bundles are not generated"]
 
     def cases(self, tier, rng):
+        # a bundle longer than 32 KiB: the offsets of its later members need all 16 bits of the offset table
+        for _ in range(1 if tier == "quick" else 6):
+            tags = [{"name": "Big", "type": "DINT", "len": 120, "addr": None}, {"name": "S", "type": "INT", "len": 3, "addr": None}]
+            members = []
+            for k in range(rng.randint(74, 90)):
+                members.append({"op": "wf", "path": [["s", "Big"], ["e", rng.randrange(5)]], "ty": lc.TYPES["DINT"], "n": 115, "off": 0,
+                                "vals": [rng.randrange(-2 ** 31, 2 ** 31) for _ in range(rng.randint(112, 115))]})
+            members += [{"op": "rt", "path": [["s", "S"]], "n": 3}, {"op": "wt", "path": [["s", "S"], ["e", 1]], "ty": lc.TYPES["INT"], "n": 1, "vals": [7]},
+                        {"op": "rt", "path": [["s", "Big"], ["e", 118]], "n": 5}, {"op": "rt", "path": [["s", "Big"]], "n": 3}]
+            yield {"budget": 488, "tags": tags, "pre": [], "members": members}
         n = 220 if tier == "quick" else 5000
         for _ in range(n):
             tags = lg.rand_tags(rng)
-            pre = rand_history(rng, tags, rng.randint(0, 8), multi=False, invalid=0.05)
+            pre = rand_history(rng, tags, rng.randint(0, 8), multi=False, invalid=0.05, class_level=True)
             k = rng.choice([1, 2, 3, 4, 6, 12])
-            members = [rand_req(rng, tags, multi=False, invalid=0.3) for _ in range(k)]
+            members = [rand_req(rng, tags, multi=False, invalid=0.3, class_level=True) for _ in range(k)]
             yield {"budget": rng.choice([488, 488, 60]), "tags": tags, "pre": pre, "members": members}
 
     def impl(self, c):
@@ -33,6 +43,7 @@ class C07(Suite):
         c["addrs"], c["tagline"] = a["addrs"], a["tagline"]
         b = dict(c, reqs=c["pre"] + c["members"])
         out_b = lc.run_case(b)
+        c["single_run"] = out_b
         last_a = out_a.split(";")[-1]
         steps_b = out_b.split(";")[len(c["pre"]):]
         return last_a + " | " + (";".join(steps_b) if steps_b else "-")
@@ -74,6 +85,12 @@ class C07(Suite):
                 return f"member {k}: bundled reply {p_.hex()} differs from single reply {rb}"
         if dump_a != steps_b[-1].split("@")[1]:
             return "tag state after the bundle differs from the state after the single requests"
+        # and the requests issued one by one behave as the array model says (so that bundle and single requests being
+        # wrong in the same way does not pass)
+        if c.get("single_run"):
+            why = lg.oracle_history(dict(c, reqs=c["pre"] + c["members"]), c["single_run"], check_errors=True)
+            if why:
+                return "issued singly: " + why
         return None
 
     def nontrivial(self, c, out):
